@@ -1,7 +1,7 @@
 """C11 - runs are deterministic and independent of process history.
 
 Search over run histories issued through the programmatic entry point in ONE
-process: every sequence of <=2 (thorough <=3) runs from an alphabet of 9 run
+process: every sequence of <=2 (thorough <=3) runs from an alphabet of 12 run
 descriptors (successful and failing) is executed in a fresh child process;
 each run's PQR bytes must equal the bytes the same run produces alone in a
 fresh process.  After every run a structural fingerprint of pdb2pqr's
@@ -20,7 +20,7 @@ from .. import build, engine, pipeline
 PROPERTY = "C11"
 LEVEL = "model_checking"
 RULE = (
-    "all histories of length <=2 (thorough <=3) over a 9-run alphabet, each "
+    "all histories of length <=2 (thorough <=3) over a 12-run alphabet, each "
     "in its own fresh process, plus every run alone under hash seeds 0,1,2 "
     "and a seed-derived one; states = distinct process-state fingerprints, "
     "transitions = distinct (fingerprint, run, fingerprint') edges; "
@@ -35,13 +35,14 @@ ASSUMPTIONS = [
     "process with PYTHONHASHSEED=0",
 ]
 BOUND = {
-    "quick": "9 single runs x 4 hash seeds; all 81 histories of length 2",
-    "thorough": "quick + all 729 histories of length 3 + 8 hash seeds",
+    "quick": "12 single runs x 4 hash seeds; all 144 histories of length 2",
+    "thorough": "quick + all 1728 histories of length 3 + 8 hash seeds",
 }
 
 ETHANOL = (engine.REPO / "tests/data/ethanol.mol2")
 RUNS = ["pep_amber", "pep_parse_opts", "strand_charmm", "titrated",
-        "ligand", "clean", "fail_parse", "fail_charge", "userff_ok"]
+        "ligand", "clean", "fail_parse", "fail_charge", "userff_ok",
+        "repair", "bare_model", "two_models"]
 
 
 def execute(rid):
@@ -102,6 +103,28 @@ def execute(rid):
         return pipeline.run(build.pdb_text(atoms), ["--clean"]), meta
     if rid == "fail_parse":
         text = "ATOM      1  N   ALA A   1      xx.xxx   0.000   0.000\nEND\n"
+        return pipeline.run(text, ["--ff=AMBER"]), meta
+    if rid == "repair":
+        # several heavy atoms missing at once (branched side chains)
+        seq = ["ALA", "LEU", "ARG", "THR", "VAL"] + ["ALA"] * 16
+        atoms = build.build_peptide(
+            seq, omit={1: {"CD1", "CD2"}, 2: {"NH1", "NH2"},
+                       3: {"OG1", "CG2"}, 4: {"CG1", "CG2"}})
+        return pipeline.run(build.pdb_text(atoms), ["--ff=AMBER"]), meta
+    if rid == "bare_model":
+        # a MODEL record without serial number is tolerated (record skipped)
+        atoms = build.build_peptide(["GLY", "ASN", "ALA"])
+        text = build.pdb_text(atoms).replace(
+            "HEADER", "MODEL\nHEADER", 1)
+        return pipeline.run(text, ["--ff=AMBER"]), meta
+    if rid == "two_models":
+        atoms = build.build_peptide(["SER", "GLU", "ALA"])
+        body = build.pdb_text(atoms, end=False, header=False)
+        atoms2 = build.build_peptide(["SER", "GLU", "ALA"],
+                                     origin=(0.3, 0.0, 0.0))
+        body2 = build.pdb_text(atoms2, end=False, header=False)
+        text = ("MODEL        1\n" + body + "ENDMDL\nMODEL        2\n"
+                + body2 + "ENDMDL\nEND\n")
         return pipeline.run(text, ["--ff=AMBER"]), meta
     if rid == "userff_ok":
         # a second, different user force-field pair (the bundled one)
